@@ -188,4 +188,152 @@ def Draw.nowrap (ρ : Env) (dr : Draw) : Prop :=
   GenSem.nowrap ρ dr.lo ∧ GenSem.nowrap ρ dr.sup ∧
   (match dr.other with | some o => GenSem.nowrap ρ o | none => True)
 
+/-! ## `sum_container::roulette` (symbol_set.cc): the wedge loop
+
+  `const auto slot(random::sup(sum())); std::size_t i(0);`
+  `for (auto wedge(elems_[i].weight); wedge <= slot; wedge += elems_[++i].weight) {}`
+  `return *elems_[i].sym;`
+
+  The translator extracts the loop as a tiny program over the state (index, accumulator): initial
+  values, the test, the assignments of one iteration IN EVALUATION ORDER (`wedge += elems_[++i].weight`
+  is `idx := idx + 1; acc := acc + weight[idx]`), the index returned.  Reading `elems_[k]` with `k`
+  past the end of the container has no value (`none`): the loop "ran past the container". -/
+
+/-- integer expressions over the state of the wedge loop -/
+inductive WE
+  | lit (n : Nat)
+  | idx                 -- the index variable
+  | acc                 -- the accumulator (`wedge`)
+  | slot                -- the drawn slot
+  | wt (e : WE)         -- `elems_[e].weight`
+  | add (a b : WE)
+deriving Repr
+
+inductive WVar | idx | acc
+deriving DecidableEq, Repr
+
+structure WedgeLoop where
+  slotSup : String              -- argument of `random::sup` that yields the slot
+  idx0 : WE                     -- initial index
+  acc0 : WE                     -- initial accumulator (may read the index)
+  cmp : CmpOp                   -- the loop continues while `lhs cmp rhs`
+  lhs : WE
+  rhs : WE
+  step : List (WVar × WE)       -- assignments of one iteration, in evaluation order
+  ret : WE                      -- index of the element returned
+
+structure WState where
+  idx : Nat
+  acc : Nat
+
+def WE.eval (ws : List Nat) (slot : Nat) (s : WState) : WE → Option Nat
+  | .lit n => some n
+  | .idx => some s.idx
+  | .acc => some s.acc
+  | .slot => some slot
+  | .wt e => (e.eval ws slot s).bind (fun k => ws[k]?)
+  | .add a b => (a.eval ws slot s).bind (fun u => (b.eval ws slot s).map (fun v => u + v))
+
+def WState.set (s : WState) : WVar → Nat → WState
+  | .idx, v => { s with idx := v }
+  | .acc, v => { s with acc := v }
+
+def wstep (ws : List Nat) (slot : Nat) : List (WVar × WE) → WState → Option WState
+  | [], s => some s
+  | (v, e) :: rest, s => (e.eval ws slot s).bind (fun n => wstep ws slot rest (s.set v n))
+
+/-- at most `fuel` evaluations of the test -/
+def WedgeLoop.iter (w : WedgeLoop) (ws : List Nat) (slot : Nat) : Nat → WState → Option Nat
+  | 0, _ => none
+  | f + 1, s =>
+    match w.lhs.eval ws slot s, w.rhs.eval ws slot s with
+    | some a, some b =>
+      if cmpZ w.cmp (a : Int) (b : Int) then (wstep ws slot w.step s).bind (w.iter ws slot f)
+      else w.ret.eval ws slot s
+    | _, _ => none
+
+/-- the index the loop returns on a container with weights `ws` (`none`: it left the container) -/
+def WedgeLoop.run (w : WedgeLoop) (ws : List Nat) (slot : Nat) : Option Nat :=
+  (w.idx0.eval ws slot ⟨0, 0⟩).bind (fun i0 =>
+    (w.acc0.eval ws slot ⟨i0, 0⟩).bind (fun a0 => w.iter ws slot (ws.length + 1) ⟨i0, a0⟩))
+
+/-- `elems_[run].sym` -/
+def WedgeLoop.pick (w : WedgeLoop) (l : List Sym) (slot : Nat) : Option Sym :=
+  (w.run (l.map (·.weight)) slot).bind (fun i => l[i]?)
+
+/-! ## `symbol_set::roulette(c)` / `roulette_terminal(c)`: which view of category `c` is asked -/
+
+/-- the views `symbol_set::insert` maintains per category (`views_[c].<name>`) -/
+def view (ss : SymSet) (c : Nat) (name : String) : List Sym :=
+  if name = "functions" then ss.functions c
+  else if name = "terminals" then ss.terminals c
+  else if name = "all" then ss.syms.filter (fun s => s.cat == c)
+  else []
+
+/-- `if (random::boolean() && views_[c].<guard>.size()) return views_[c].<thenV>.roulette();`
+    `return views_[c].<elseV>.roulette();` -/
+structure Sel where
+  coin : Bool               -- the guard starts with `random::boolean()`
+  guardView : String        -- the view whose `size()` is tested
+  thenView : String
+  elseView : String
+
+def Sel.useThen (sel : Sel) (ss : SymSet) (c : Nat) (d : GDraw) : Bool :=
+  (!sel.coin || d.b) && !(view ss c sel.guardView).isEmpty
+
+def Sel.run (sel : Sel) (w : WedgeLoop) (ss : SymSet) (c : Nat) (d : GDraw) : Option Sym :=
+  if sel.useThen ss c d then w.pick (view ss c sel.thenView) d.slotF
+  else w.pick (view ss c sel.elseView) d.slotT
+
+/-! ## `locus::operator<` and `random_locus` (the exon walk over a `std::set<locus>`) -/
+
+/-- variables of the extracted `operator<(l1, l2)`: 0 `l1.index`, 1 `l1.category`, 2 `l2.index`,
+    3 `l2.category` -/
+def lessEnv (a b : Locus) : Env :=
+  { v := fun j => match j with
+      | 0 => a.idx | 1 => a.cat | 2 => b.idx | 3 => b.cat | _ => 0
+    a := fun _ => 0 }
+
+def lessBy (less : E) (a b : Locus) : Bool := evalZ (lessEnv a b) less != 0
+
+/-- the least element of a list w.r.t. `less` -/
+def minL (less : Locus → Locus → Bool) : List Locus → Option Locus
+  | [] => none
+  | l :: t =>
+    match minL less t with
+    | none => some l
+    | some m => if less m l then some m else some l
+
+/-- `++iter` on an ordered set holding the elements of `S`: the least element after `cur`
+    (`none` = `end()`) -/
+def nextIn (less : Locus → Locus → Bool) (S : List Locus) (cur : Locus) : Option Locus :=
+  minL less (S.filter (fun l => less cur l))
+
+/-- `do { exons.insert(args of *iter) } while (++iter != exons.end())` on an ordered set: elements
+    inserted BEFORE the cursor are never visited, those inserted after it are (in order) -/
+def walkFrom (less : Locus → Locus → Bool) (x : Ind) : Nat → List Locus → Locus → List Locus
+  | 0, S, _ => S
+  | f + 1, S, cur =>
+    match nextIn less (S ++ (x.gene cur.idx cur.cat).argLoci) cur with
+    | none => S ++ (x.gene cur.idx cur.cat).argLoci
+    | some n => walkFrom less x f (S ++ (x.gene cur.idx cur.cat).argLoci) n
+
+/-- the shape of `random_locus(prg)` as read off the AST -/
+structure Walk where
+  container : String     -- type of the work set
+  init : String          -- its initial content
+  cursor : String        -- where the iteration starts
+  expand : String        -- what one iteration inserts
+  advance : String       -- how the loop advances / ends
+  result : String        -- what is returned
+
+def Walk.known (w : Walk) : Bool :=
+  w.container == "std::set<locus>" && w.init == "{prg.best()}" && w.cursor == "begin()" &&
+  w.expand == "insert:prg[*iter].arguments()" && w.advance == "do-while:++iter!=end()" &&
+  w.result == "random::element(set)"
+
+/-- the set `random_locus` draws from (`[]` when the shape is not the known one) -/
+def Walk.run (w : Walk) (less : E) (x : Ind) : List Locus :=
+  if w.known then walkFrom (lessBy less) x (x.rows * x.cols) [x.best] x.best else []
+
 end Vita.C02.GenSem
